@@ -85,7 +85,7 @@ def vstructure_rules(rep, prog):
     e = ("elem", inner["iter"])
     i, j = ("sub", e, ("const", 0)), ("sub", e, ("const", 1))
     # 3. unshielded condition + tuple layout
-    apps = [x for x in S.select("call", qname=q) if x.callkind == "method" and x.target == ".append"]
+    apps = merge_complementary([x for x in S.select("call", qname=q) if x.callkind == "method" and x.target in (".append", ".add")])
     ok, why = False, "no single append found"
     if len(apps) == 1:
         a = apps[0]
